@@ -7,10 +7,16 @@ package openapi3gen
 
 //@ guarded typeInfos by typeInfosMutex @C15
 
+//@ spec kindOf(t reflect.Type) reflect.Kind
+//@ spec typeNameOf(t reflect.Type) string
 //@ iface (reflect.Type).Kind (self)
 //@   pure
+//@   ensures result == kindOf(self)
 //@ iface (reflect.Type).Elem (self)
 //@   pure
+//@ iface (reflect.Type).Name (self)
+//@   pure
+//@   ensures result == typeNameOf(self)
 
 //@ func appendFields
 //@   modifies *
@@ -24,3 +30,43 @@ package openapi3gen
 //@   ensures unchanged(wlocked, rlocked)
 //@   option safety-tags none
 //@   tag C15
+
+
+// ---- C18, the kind table: the schema generated for a Go scalar kind admits every JSON number the
+// standard encoder can produce for a value of that kind - it says "integer" (or "number"), and any
+// bound it states contains the whole range of the kind. (Soundness, not exactness: a missing bound
+// is fine, a bound inside the range is not.) The bounds are package constants.
+//@ global nonnil zeroInt maxInt8 minInt8 maxInt16 minInt16 maxUint8 maxUint16 maxUint32 maxUint64
+//@ spec kindLo(k reflect.Kind) float64 :=
+//@     k == reflect.Int8 ? float(-128) : k == reflect.Int16 ? float(-32768) : k == reflect.Int32 ? float(-2147483648)
+//@   : (k == reflect.Int || k == reflect.Int64) ? float(-9223372036854775808) : float(0)
+//@ spec kindHi(k reflect.Kind) float64 :=
+//@     k == reflect.Int8 ? float(127) : k == reflect.Int16 ? float(32767) : k == reflect.Int32 ? float(2147483647)
+//@   : (k == reflect.Int || k == reflect.Int64) ? float(9223372036854775807)
+//@   : k == reflect.Uint8 ? float(255) : k == reflect.Uint16 ? float(65535) : k == reflect.Uint32 ? float(4294967295) : float(18446744073709551615)
+//@ spec integerKind(k reflect.Kind) bool :=
+//@     k == reflect.Int || k == reflect.Int8 || k == reflect.Int16 || k == reflect.Int32 || k == reflect.Int64
+//@  || k == reflect.Uint || k == reflect.Uint8 || k == reflect.Uint16 || k == reflect.Uint32 || k == reflect.Uint64
+//@ spec oneType(s *openapi3.Schema, name string) bool := s.Type != nil && len(*s.Type) == 1 && (*s.Type)[0] == name
+//@ spec plainScalar(g *Generator, t reflect.Type) bool :=
+//@     g != nil && t != nil && g.opts.schemaCustomizer == nil && kindOf(t) != reflect.Ptr && !hasSuffix(typeNameOf(t), "Ref")
+//@ spec intSchema0(s *openapi3.Schema, k reflect.Kind) bool :=
+//@     oneType(s, "integer") && (s.Min != nil ==> *s.Min <= kindLo(k)) && (s.Max != nil ==> *s.Max >= kindHi(k)) && !s.ExclusiveMin && !s.ExclusiveMax && s.MultipleOf == nil && s.Enum == nil && !s.Nullable
+//@  && (s.Format == "" || (s.Format == "int32" && k == reflect.Int32) || (s.Format == "int64" && k == reflect.Int64))
+//@ spec intSchema(r *openapi3.SchemaRef, k reflect.Kind) bool := r != nil && r.Value != nil && intSchema0(r.Value, k)
+//@ spec floatSchema0(s *openapi3.Schema) bool := oneType(s, "number") && s.Min == nil && s.Max == nil && s.MultipleOf == nil && s.Enum == nil
+//@ spec floatSchema(r *openapi3.SchemaRef) bool := r != nil && r.Value != nil && floatSchema0(r.Value)
+//@ spec boolSchema0(s *openapi3.Schema) bool := oneType(s, "boolean") && s.Enum == nil
+//@ spec boolSchema(r *openapi3.SchemaRef) bool := r != nil && r.Value != nil && boolSchema0(r.Value)
+//@ spec stringSchema0(s *openapi3.Schema) bool := oneType(s, "string") && s.MaxLength == nil && s.MinLength == 0 && s.Pattern == "" && s.Format == "" && s.Enum == nil
+//@ spec stringSchema(r *openapi3.SchemaRef) bool := r != nil && r.Value != nil && stringSchema0(r.Value)
+//@ func (*Generator).generateWithoutSaving
+//@   assuming !wlocked[ptr(typeInfosMutex)] && rlocked[ptr(typeInfosMutex)] == 0 && t != nil
+//@   modifies *
+//@   loop 1 invariant plainScalar(g, entry(t)) ==> (t == entry(t) && !isNullable)
+//@   ensures @C18 [integer-kinds] plainScalar(g, t) && integerKind(kindOf(t)) ==> (result.1 == nil) == intSchema(result.0, kindOf(t))
+//@   ensures @C18 [float-kinds] plainScalar(g, t) && (kindOf(t) == reflect.Float32 || kindOf(t) == reflect.Float64) ==> (result.1 == nil) == floatSchema(result.0)
+//@   ensures @C18 [bool-kind] plainScalar(g, t) && kindOf(t) == reflect.Bool ==> (result.1 == nil) == boolSchema(result.0)
+//@   ensures @C18 [string-kind] plainScalar(g, t) && kindOf(t) == reflect.String ==> (result.1 == nil) == stringSchema(result.0)
+//@   option safety-tags none
+//@   tag C18-attempted
